@@ -4295,12 +4295,28 @@ impl IceGatherer {
         let bytes = message.encode(None, true)?;
         socket.send_to(&bytes, addr).await?;
         let mut buf = [0u8; MAX_STUN_MESSAGE];
-        let (len, from) = timeout(self.config.stun_timeout, socket.recv_from(&mut buf)).await??;
-        if from.ip() != addr.ip() {
-            return Ok(None);
-        }
-        let parsed = StunMessage::decode(&buf[..len])?;
-        if let Some(mapped) = parsed.xor_mapped_address {
+        // Only the answer to OUR transaction counts: anything else that shows up
+        // on this socket before the timeout (another source, another transaction
+        // id, not a Binding success response) is skipped, not taken for the answer.
+        let deadline = tokio::time::Instant::now() + self.config.stun_timeout;
+        let mapped = loop {
+            let (len, from) =
+                tokio::time::timeout_at(deadline, socket.recv_from(&mut buf)).await??;
+            if from.ip() != addr.ip() {
+                continue;
+            }
+            let Ok(parsed) = StunMessage::decode(&buf[..len]) else {
+                continue;
+            };
+            if parsed.transaction_id != tx_id
+                || parsed.class != StunClass::SuccessResponse
+                || parsed.method != StunMethod::Binding
+            {
+                continue;
+            }
+            break parsed.xor_mapped_address;
+        };
+        if let Some(mapped) = mapped {
             let socket = Arc::new(socket);
             self.sockets.lock().push(socket.clone());
             let _ = self.socket_tx.send(IceSocketWrapper::Udp(socket));
